@@ -580,12 +580,20 @@ func (s *Server) GetResolved(docURI protocol.DocumentURI) *include.ResolvedJourn
 }
 
 func (s *Server) getWorkspaceResolved(docURI protocol.DocumentURI) *include.ResolvedJournal {
+	resolved, _ := s.getWorkspaceResolvedWithPath(docURI)
+	return resolved
+}
+
+// getWorkspaceResolvedWithPath returns the include tree that answers requests for docURI and
+// the path of its primary journal: the workspace's root journal, or the document itself when
+// there is no workspace.
+func (s *Server) getWorkspaceResolvedWithPath(docURI protocol.DocumentURI) (*include.ResolvedJournal, string) {
 	if s.workspace != nil {
 		if resolved := s.workspace.GetResolved(); resolved != nil {
-			return resolved
+			return resolved, s.workspace.RootJournalPath()
 		}
 	}
-	return s.GetResolved(docURI)
+	return s.GetResolved(docURI), uriToPath(docURI)
 }
 
 func (s *Server) RootURI() string {
